@@ -51,6 +51,33 @@ def check(run):
     # the single-thread transcript against the model and the specification
     run.differential("workload-vs-model", [W], canon=lambda l, x: x.split("]")[0] + "]" if l.startswith("calcwit ") and x.startswith("[") else x,
                      spec_canon=rlngen.spec_verdict, shrink=False, env={"RAYON_NUM_THREADS": "1"})
+    # ---------------------------------------------------------------- (1b) the data-parallel witness map on generated matrices
+    # `CircomReduction::witness_map_from_matrices` (qap.rs:26-103) on small constraint systems, under 1 and 4 worker threads, against
+    # the model (the code's pipeline over the DFT written out, ZkModel/Qap.lean) and the specification (the doc comment's sentence:
+    # (A·B − C) at the odd points of the doubled domain, by Lagrange interpolation). Domain sizes 1 … 32, rows shorter / longer than
+    # the declared constraint count, empty rows, boundary coefficients, assignment indices outside the assignment (a panic).
+    FV = [0, 1, 2, P - 1, P - 2, (P - 1) // 2, 1 << 64, (1 << 253) + 5]
+    def qrow(nw, bad):
+        k = rng.choice([0, 1, 1, 2, 3, 5])
+        if k == 0:
+            return "_"
+        return ",".join(f"{hex(rng.choice(FV + [rand_fr(rng)]))}:{hex(nw + rng.randrange(3) if bad and rng.random() < 0.3 else rng.randrange(nw))}" for _ in range(k))
+    qlines = []
+    for i in range(60 if quick else 600):
+        nc = rng.choice([0, 1, 2, 3, 4, 5, 7, 8, 12, 15] + ([] if quick else [16, 27]))
+        ni = rng.choice([0, 1, 1, 2, 4])
+        nw = max(1, ni + rng.choice([0, 1, 3, 6]))
+        bad = i % 9 == 8
+        na = nc if i % 5 else max(0, nc + rng.choice([-2, -1, 1, 3]))
+        nb = nc if i % 7 else max(0, nc + rng.choice([-1, 2]))
+        A = ";".join(qrow(nw, bad) for _ in range(na)) or "-"
+        B = ";".join(qrow(nw, bad) for _ in range(nb)) or "-"
+        wv = [1] + [rng.choice(FV + [rand_fr(rng), rand_fr(rng)]) for _ in range(nw - 1)]
+        if i % 11 == 10:
+            ni = nw + rng.choice([1, 2])                # more public inputs than assignment values: the copy panics
+        qlines.append(f"qap {A} {B} {hex(ni)} {hex(nc)} {','.join(hex(v) for v in wv)}")
+    for nt in ("1", "4"):
+        run.differential(f"qap-witness-map-threads-{nt}", [[l] for l in qlines], shrink=False, env={"RAYON_NUM_THREADS": nt})
     # ---------------------------------------------------------------- (2) N concurrent read-only callers on one shared instance
     M = msgs[0]
     setup = M["setup"] + ["rln set_leaves_from 0x20 " + treegen.vlist([rand_fr(rng) for _ in range(8)]), "rln root"]
@@ -121,4 +148,4 @@ def check(run):
     if "p2_worst_ms" not in d or int(d["p2_worst_ms"]) > 10000 or d.get("p2_failures") != "0" or d.get("waiter_opened") != "true":
         run.violation({"property": run.pid, "kind": "impl-vs-spec", "stream": "open-contention", "ops": ["open_contention"], "impl_args": ["open_contention"],
                        "detail": "with a live tree on location P1 and a thread waiting to open P1, ten drop + re-create cycles on an unrelated location P2 must each finish at once, and the waiter must get P1 once it is released: " + line[:200]})
-    run.rules.append("(4) three parties in one process: a live tree on P1, a thread waiting to open P1, and drop + re-create cycles on an unrelated P2 with a 30 s watchdog; (1) one fixed workload (batch range writes on persistent trees of depth 4/7/10 with roots and subtree roots, batch API writes, verification of real messages, full witnesses, the QAP witness map's h vector, proof values) under RAYON_NUM_THREADS = 1, 2, 4, 16: transcripts must be bit-identical, and the single-thread transcript equals model and specification; (2) 8 (thorough: 2/8/32) threads issuing the same read-only calls (three verification entry points on valid / tampered / stale-root messages, root, leaves, proofs, subtree roots, empty list, metadata, key derivation, hashing, recovery) at different offsets on ONE shared instance vs the sequential results, plus a hot loop of thousands of cheap read-only calls (membership proofs, leaves, subtree roots of different positions) per thread, with a 900 s watchdog; (3) drop + re-create on the same storage location in a loop; distinct = distinct workload line")
+    run.rules.append("(4) three parties in one process: a live tree on P1, a thread waiting to open P1, and drop + re-create cycles on an unrelated P2 with a 30 s watchdog; (1b) `witness_map_from_matrices` on generated small constraint systems (domain 1 … 32, short / long matrices, empty rows, boundary coefficients, out-of-range assignment indices) under 1 and 4 worker threads against the model (ZkModel/Qap.lean, the code's pipeline) and the specification (Lagrange form of the doc comment); (1) one fixed workload (batch range writes on persistent trees of depth 4/7/10 with roots and subtree roots, batch API writes, verification of real messages, full witnesses, the QAP witness map's h vector, proof values) under RAYON_NUM_THREADS = 1, 2, 4, 16: transcripts must be bit-identical, and the single-thread transcript equals model and specification; (2) 8 (thorough: 2/8/32) threads issuing the same read-only calls (three verification entry points on valid / tampered / stale-root messages, root, leaves, proofs, subtree roots, empty list, metadata, key derivation, hashing, recovery) at different offsets on ONE shared instance vs the sequential results, plus a hot loop of thousands of cheap read-only calls (membership proofs, leaves, subtree roots of different positions) per thread, with a 900 s watchdog; (3) drop + re-create on the same storage location in a loop; distinct = distinct workload line")
